@@ -1,6 +1,7 @@
 package main
 
 import (
+	"strconv"
 	"strings"
 	"time"
 )
@@ -18,7 +19,7 @@ func init() {
 		Jobs: func(tier string, seed int64) []Job {
 			var jobs []Job
 			j := func(t, mode string) {
-				jobs = append(jobs, Job{Prop: "C08", Pkg: "parser", Func: "VerifTotal", Args: []string{t, mode}})
+				jobs = append(jobs, Job{Prop: "C08", Pkg: "parser", Func: "VerifTotal", Args: []string{t, mode}, MaxSteps: 3_000_000, HangLabel: "total/does-not-terminate"})
 			}
 			maxWhole, maxCtx := 2, 2
 			if tier == "thorough" {
@@ -49,12 +50,13 @@ func init() {
 			}
 			return jobs
 		},
-		Budget: map[string]time.Duration{"quick": 8 * time.Minute, "thorough": 60 * time.Minute},
-		Reach:  []string{"errors reported", "continuation requested", "tree returned"},
+		HangLabels: []string{"total/does-not-terminate"},
+		Budget:     map[string]time.Duration{"quick": 8 * time.Minute, "thorough": 60 * time.Minute},
+		Reach:      []string{"errors reported", "continuation requested", "tree returned"},
 		Bounds: map[string]interface{}{"whole_input": "every byte string of length 0..2 (3 thorough), all 256 values per byte, file and line mode",
 			"contexts": "45 open prefixes (one per parse function and position) followed by 1..2 arbitrary bytes (3 thorough), also with a space before the byte and a token after it",
 			"windows":  "one arbitrary byte substituted at every other position (every position thorough) of 3 seed programs"},
-		Outside: []string{"inputs needing more arbitrary bytes than stated beyond a listed context", "termination is shown per path (step bound), not by a ranking function"},
+		Outside: []string{"inputs needing more arbitrary bytes than stated beyond a listed context", "termination is shown per path: a path that needs more than 3 million SSA steps is reported as a non-termination candidate and counts when the native run of the same input does not finish within 20 s"},
 	})
 }
 
@@ -122,11 +124,43 @@ func c02Templates(tier string) []string {
 			c02Family[pv+"\n"+nx] = "statement pair: <expression statement> then " + nx
 		}
 	}
+	// comments at the edges of every kind of block, with and without a following statement
+	blocks := []string{"if a {%}", "if a {b} else {%}", "for a {%}", "func f() {%}", "g = func() {%}", "h = () => {%}", "if a {%} else {b}", "m = macro(x) {%}"}
+	bodies := []string{"c /* k */", "/* k */", "c // k\n", "c /* k */\n", "\nc /* k */ ", "/* k */ c", "\n/* k */\nc\n", "c\n/* k */", "c\n// k\n", "// k\nc", "c /* k */ /* l */"}
+	tails := []string{"", "\nd", "; d", "\n/* t */\nd", " /* t */\nd", " // t\nd"}
+	for _, bl := range blocks {
+		for _, bd := range bodies {
+			for _, tl := range tails {
+				t := strings.Replace(bl, "%", bd, 1) + tl
+				add(t)
+				c02Family[t] = "comment at a block edge: " + bl + " body " + strconv.Quote(bd)
+			}
+		}
+	}
+	// comments between two statements, on the previous line, on their own line, on the next one
+	for _, pv := range []string{"a", "x = 1", "f(a)", "if a {b}", "a++", "[a]"} {
+		for _, cm := range []string{" /* k */\n", "\n/* k */\n", "\n/* k */ ", " // k\n", "\n// k\n", " /* k */ ", "\n\n/* k */\n\n", " /* k */ /* l */\n", "\n// k\n// l\n"} {
+			for _, nx := range []string{"b", "-b", "[b]", "(b)", "if b {c}", "y = 2"} {
+				t := pv + cm + nx
+				add(t)
+				c02Family[t] = "comment between statements: " + strconv.Quote(cm) + " then " + nx
+			}
+		}
+	}
 	// symbolic bytes: literal contents, identifier/number bytes, spacing and separators
 	add("s = \"@\"", "s = \"@@\"", "s = \"a@b\"", "s = \"\\@\"", "s = `@`", "s = `@@`", "// @\na", "// @@\na", "a // @", "/* @ */ a", "/* @@ */ a", "a /* @ */ b",
 		"a@ = 1", "a@@", "x = 1@", "x = 1@@", "x = @.@", "x = 1e@", "x = 0x@", "a@(b)", "a@[1]", "a@b", "a@-b", "a;@b", "a @ b", "a @@ b", "a@@b", "{a@1}", "f(a@b)", "[a@b]", "a@@ b", "a @@b", "@a", "@@a", "a@", "a@@",
 		"if a {b}@c", "if a {b}@else {c}", "f@(1)", "a@.b", "a.@b", "a[1@2]", "a[1@]", "a[@1]", "-@a", "a -@ b", "a+@+b", "a++@b", "a@++", "1@2", "1@.5", "\"a\"@\"b\"", "a@\"b\"", "a@`b`", "a /*c*/@b", "a //c\n@b")
 	return ts
+}
+
+// c03Histories: {input, input parsed and printed earlier by the same process}; '@' = arbitrary byte
+var c03Histories = [][2]string{
+	{"b = 1@", "a = 0x1@"}, {"b = 2@", "a = 0x1@"}, {"a = 0x1@", "b = 1@"}, {"a = 0x1@", "b = 2@"}, {"b = @@", "a = 0x1F"}, {"a = 0x@@", "b = 31"},
+	{"b = @", "a = 0b1@"}, {"a = 0b1@", "b = @"}, {"b = 1@", "a = 1_@"}, {"b = @", "a = 0@"}, {"b = 0@", "a = @"}, {"a = 1@", "b = 1@"},
+	{"x = \"@\"", "y = \"@\""}, {"x = `@`", "y = \"@\""}, {"a@ = 1", "a@ = 2"}, {"a @ b", "c @ d"}, {"a @@ b", "c == d"}, {"a = @.5", "b = @.5"}, {"a = 1.@", "b = 1.@0"}, {"a = @e1", "b = @0.0"},
+	{"f(@)", "/* c */ @"}, {"// @\na", "// k\nb"}, {"/* @ */ a", "b /* k */"}, {"// k\na", "// @\nb"}, {"[@, 1]", "[1, @]"}, {"{@: 1}", "{1: @}"}, {"a@b", "a @ b"},
+	{"if a {b}", "if a {b} else {c}"}, {"func f() {a}", "func f() {b}"}, {"a = 1\nb = 2", "b = 2\na = 1"},
 }
 
 func init() {
@@ -142,6 +176,13 @@ func init() {
 							what = "fixpoint"
 						}
 						jobs = append(jobs, Job{Prop: id, Pkg: "parser", Func: "VerifRoundTrip", Args: []string{t, mode, what, c02Family[t]}})
+					}
+				}
+				if id == "C03" {
+					for _, h := range c03Histories {
+						for _, mode := range []string{"normal", "compact"} {
+							jobs = append(jobs, Job{Prop: id, Pkg: "parser", Func: "VerifFormatHistory", Args: []string{h[0], h[1], mode}, MaxDec: 400})
+						}
 					}
 				}
 				return jobs
